@@ -1913,11 +1913,19 @@ func TestCheck(t *testing.T) {
 	nSplit := r.Env.N(3000, 300000)
 	nb := len(grBehaviours) + len(hBehaviours)
 	nFetch := nb * r.Env.N(30, 1000)
-	for i := 0; i < nSplit+nFetch; i++ {
+	nLarge := r.Env.N(24, 240)
+	for i := 0; i < nSplit+nFetch+nLarge; i++ {
 		if !r.Mine(i) {
 			continue
 		}
 		rng := r.Env.Rng(i)
+		if i >= nSplit+nFetch {
+			s := genLarge(rng, i-nSplit-nFetch)
+			c := r.Begin(i, s.desc())
+			runLarge(c, s)
+			c.End()
+			continue
+		}
 		if i < nSplit {
 			s := genSplit(rng, i)
 			c := r.Begin(i, s.desc())
